@@ -27,7 +27,9 @@ import (
 	"time"
 
 	"github.com/chrislusf/seaweedfs/weed/pb/volume_server_pb"
+	"github.com/chrislusf/seaweedfs/weed/storage"
 	"github.com/chrislusf/seaweedfs/weed/storage/needle"
+	"github.com/chrislusf/seaweedfs/weed/storage/types"
 
 	"verifharness/cluster"
 	"verifharness/tr"
@@ -390,11 +392,19 @@ func (r *runner) runConc(ex []tr.Ev, batched bool) []tr.Ev {
 		return err
 	})
 	doOp := func(p int, op tr.Ev) {
-		call := tr.Ev{"ev": "call", "p": p, "op": tr.S(op, "op"), "k": tr.I(op, "k"), "c": tr.S(op, "c"),
+		opName := tr.S(op, "op")
+		if opName == "swrite" {
+			opName = "write"
+		} else if opName == "sread" {
+			opName = "read"
+		}
+		call := tr.Ev{"ev": "call", "p": p, "op": opName, "k": tr.I(op, "k"), "c": tr.S(op, "c"),
 			"d": tr.S(op, "d"), "m": tr.S(op, "m")}
 		emit(call)
 		var ret tr.Ev
 		switch tr.S(op, "op") {
+		case "swrite", "sdelete", "sread":
+			ret = r.storeOp(vid, p, op, batched)
 		case "write":
 			e := tr.Ev{"k": op["k"], "c": op["c"], "d": op["d"], "m": op["m"]}
 			r.writeOpt(vid, e, batched)
@@ -434,6 +444,47 @@ func (r *runner) runConc(ex []tr.Ev, batched bool) []tr.Ev {
 		}
 	}
 	return out
+}
+
+// storeOp: the same operations directly on the running server's Store (the API level at which
+// a delete reports how many bytes it removed)
+func (r *runner) storeOp(vid uint32, p int, op tr.Ev, batched bool) tr.Ev {
+	st := r.c.Volumes[0].Server.VerifStore()
+	n := new(needle.Needle)
+	n.Id = types.NeedleId(tr.I(op, "k"))
+	n.Cookie = types.Cookie(cookies[tr.S(op, "c")])
+	switch tr.S(op, "op") {
+	case "swrite":
+		n.Data = append([]byte{}, datas[tr.S(op, "d")]...)
+		n.Checksum = needle.NewCRC(n.Data)
+		n.LastModified = uint64(time.Now().Unix())
+		n.SetHasLastModifiedDate()
+		_, err := st.WriteVolumeNeedle(needle.VolumeId(vid), n, batched)
+		res := "ok"
+		if err != nil {
+			res = "err"
+		}
+		return tr.Ev{"ev": "ret", "p": p, "res": res}
+	case "sdelete":
+		size, err := st.DeleteVolumeNeedle(needle.VolumeId(vid), n)
+		res := "noop"
+		if err != nil {
+			res = "err"
+		} else if size > 0 {
+			res = "removed"
+		}
+		return tr.Ev{"ev": "ret", "p": p, "res": res}
+	}
+	e := tr.Ev{"ev": "ret", "p": p, "k": op["k"], "c": op["c"], "st": "err", "d": "?", "name": "", "mime": "",
+		"pairs": []interface{}{}, "lm": "none", "gz": false}
+	_, err := st.ReadVolumeNeedle(needle.VolumeId(vid), n, nil)
+	if err == nil {
+		e["st"] = "data"
+		e["d"] = dataToken(n.Data)
+	} else if err == storage.ErrorNotFound || err == storage.ErrorDeleted {
+		e["st"] = "notfound"
+	}
+	return e
 }
 
 func main() {
